@@ -803,3 +803,157 @@ pub fn run_hostile_case(ctx: &Ctx, c: &HostileCase) -> Result<CaseRun, CaseAbort
     held.lock().unwrap().clear();
     Ok(CaseRun { findings, classes, nontrivial: completed > 0 && answered_after > 0 })
 }
+
+// ---------------------------------------------------------------------------
+// a well-formed request line that arrives in several TCP segments
+
+#[derive(Debug, Clone, serde::Serialize, serde::Deserialize)]
+pub struct SplitCase {
+    /// request line without its terminator
+    pub command: String,
+    /// "\r\n" or "\n"
+    pub terminator: String,
+    /// 2 or 3 pieces
+    pub pieces: u8,
+}
+
+pub fn split_cases() -> Vec<SplitCase> {
+    let mut v = Vec::new();
+    for command in [
+        "v1/summary".to_string(),
+        format!("v1/products/{PROBE_PRODUCT}/versions"),
+        format!("v1/products/{PROBE_PRODUCT}/cdns"),
+        format!("v1/products/{PROBE_PRODUCT}/bgdl"),
+        format!("v2/products/{PROBE_PRODUCT}/versions"),
+        format!("v2/products/{PROBE_PRODUCT}/cdns"),
+        format!("v2/products/{PROBE_PRODUCT}/bgdl"),
+    ] {
+        for terminator in ["\r\n", "\n"] {
+            for pieces in [2u8, 3] {
+                v.push(SplitCase { command: command.clone(), terminator: terminator.to_string(), pieces });
+            }
+        }
+    }
+    v
+}
+
+/// An answer without what legitimately changes from one second to the next: the `## seqn` line,
+/// the checksum computed over it, and the sequence numbers in the rows of a summary.
+fn stable_part(resp: &[u8]) -> Vec<u8> {
+    let mut out = Vec::with_capacity(resp.len());
+    for line in resp.split_inclusive(|&b| b == b'\n') {
+        if line.starts_with(b"## seqn") || line.starts_with(b"Checksum:") {
+            continue;
+        }
+        // the summary also writes the sequence number (a Unix time) into every row
+        let mut i = 0;
+        while i < line.len() {
+            if line[i].is_ascii_digit() {
+                let j = line[i..].iter().position(|b| !b.is_ascii_digit()).map_or(line.len(), |p| i + p);
+                if j - i >= 9 {
+                    out.push(b'#');
+                } else {
+                    out.extend_from_slice(&line[i..j]);
+                }
+                i = j;
+            } else {
+                out.push(line[i]);
+                i += 1;
+            }
+        }
+    }
+    out
+}
+
+async fn raw_pieces(port: u16, pieces: &[&[u8]]) -> Result<Vec<u8>, String> {
+    let mut s = tokio::time::timeout(WATCHDOG, TcpStream::connect(local(port))).await.map_err(|_| "connect: watchdog".to_string())?.map_err(|e| format!("connect: {e}"))?;
+    let _ = s.set_nodelay(true);
+    for (i, p) in pieces.iter().enumerate() {
+        s.write_all(p).await.map_err(|e| format!("write: {e}"))?;
+        s.flush().await.map_err(|e| format!("flush: {e}"))?;
+        if i + 1 < pieces.len() {
+            // long enough for the first segment to be delivered and read on its own
+            tokio::time::sleep(Duration::from_millis(15)).await;
+        }
+    }
+    let mut out = Vec::new();
+    match tokio::time::timeout(WATCHDOG, s.read_to_end(&mut out)).await {
+        Err(_) => Err("no end of response: watchdog".into()),
+        Ok(Err(e)) if out.is_empty() => Err(format!("read: {e}")),
+        Ok(_) => Ok(out),
+    }
+}
+
+/// The answer to a request line must not depend on how TCP cut it into segments: the first and last three and every third cut
+/// position (2 pieces) or 14 pairs of cut positions (3 pieces) against the one-piece answer.
+pub fn run_split_case(_ctx: &Ctx, c: &SplitCase) -> Result<CaseRun, CaseAbort> {
+    panics_clear();
+    let db = probe_db(&crate::strat::feature_cases()[0]);
+    let mut w = build_world(&db)?;
+    let port = w.servers.tcp_port;
+    let line = format!("{}{}", c.command, c.terminator).into_bytes();
+    let mut findings: Vec<Finding> = Vec::new();
+    let whole = w.rt.block_on(raw_pieces(port, &[&line]));
+    let again = w.rt.block_on(raw_pieces(port, &[&line]));
+    let (whole, again) = match (whole, again) {
+        (Ok(a), Ok(b)) => (a, b),
+        (Err(e), _) | (_, Err(e)) => return Err(CaseAbort::Infra(format!("one-piece request {:?}: {e}", c.command))),
+    };
+    let mut classes: Vec<&'static str> = vec![if c.pieces == 2 { "two-pieces" } else { "three-pieces" }];
+    if whole.is_empty() {
+        return Err(CaseAbort::Infra(format!("one-piece request {:?} got an empty answer", c.command)));
+    }
+    let whole = stable_part(&whole);
+    if whole != stable_part(&again) {
+        // answers carry something else that changes from call to call: nothing to compare
+        classes.push("answer-not-repeatable");
+        return Ok(CaseRun { findings, classes, nontrivial: false });
+    }
+    let n = line.len();
+    let mut cuts: Vec<Vec<usize>> = Vec::new();
+    if c.pieces == 2 {
+        for a in 1..n {
+            if a <= 3 || a + 3 >= n || a % 3 == 0 {
+                cuts.push(vec![a]);
+            }
+        }
+    } else {
+        let mut k = 0;
+        for a in 1..n {
+            for b in a + 1..n {
+                k += 1;
+                if k % 7 == 0 {
+                    cuts.push(vec![a, b]);
+                }
+            }
+        }
+        cuts.truncate(14);
+    }
+    for cut in cuts {
+        let mut pieces: Vec<&[u8]> = Vec::new();
+        let mut from = 0;
+        for &at in &cut {
+            pieces.push(&line[from..at]);
+            from = at;
+        }
+        pieces.push(&line[from..]);
+        let got = w.rt.block_on(raw_pieces(port, &pieces));
+        let bad = match &got {
+            Ok(g) => stable_part(g) != whole,
+            Err(_) => true,
+        };
+        if bad {
+            let what = match got {
+                Ok(g) => format!("{} bytes: {:?}", g.len(), String::from_utf8_lossy(&g[..g.len().min(80)])),
+                Err(e) => e,
+            };
+            findings.push(Finding {
+                key: "C15:tcp:answer-depends-on-how-the-request-line-is-segmented".into(),
+                msg: format!("request line {:?} sent as pieces cut at {:?}: {what}; sent in one piece it is answered with {} bytes", String::from_utf8_lossy(&line), cut, whole.len()),
+            });
+            break;
+        }
+    }
+    w.server_findings(&mut findings, _ctx);
+    Ok(CaseRun { findings, classes, nontrivial: true })
+}
